@@ -371,7 +371,11 @@ def _run(info, out, R):
     for i in range(12 if info["tier"] == "quick" else 300):
         r3 = rng.fork("reord%d" % i)
         f = gen_file(r3.fork("f"), boundary=False)
-        if len(f["orders"]) < 2 and r3.chance(0.7):
+        common = None
+        if r3.chance(0.4):
+            common = min(f["orders"])
+            f["orders"] = [common] * len(f["orders"])
+        if len(f["orders"]) < 2 and r3.chance(0.7) and common is None:
             continue
         src = os.path.join(R.tmp, "reord_src_%d.fits" % i)
         pgen = subprocess.run([R.harness], input=gen_line(src, f) + "\n", stdout=subprocess.PIPE, stderr=subprocess.PIPE, text=True,
@@ -389,6 +393,14 @@ def _run(info, out, R):
             r3.shuffle(rest)
         elif len(rest) >= 2:
             rest[0], rest[1] = rest[1], rest[0]
+        # legacy + modern header at once: a table whose orders are all equal gets the common ORDER card with that value, and its
+        # ORDER0..ORDERn-1 cards are set to LARGER values (the reader lets the common card win, so the file is the same well-formed
+        # table; the estimate must be about the table the reader builds)
+        if common is not None:
+            hd[0].set("ORDER", str(common))
+            for d in range(len(f["orders"])):
+                hd[0].set("ORDER%d" % d, str(common + r3.rint(1, 4)))
+            how += "+common-ORDER"
         dst = os.path.join(R.tmp, "reord_%d.fits" % i)
         open(dst, "wb").write(C07mut.serialise([hd[0]] + rest))
         os.remove(src)
